@@ -8,6 +8,6 @@ func C01(run *core.Run) {
 		"trace validation covers the executions recorded (repository contract tests under hooks, seeded lab walks); inside them every accepted block is checked against the specification's arithmetic over ALL accounts",
 		"the projector (lab/ledger) decodes balances and token records from the state-change patches; patches are the consensus-relevant state change (momentums commit to their hash)",
 	}
-	ledgerFamily(run, ledgerFamilyOpts{prop: "C01", invariants: "Conservation AtMostOnce FIFO Backed", repoPattern: "TestToken|TestSimple|TestSendBlock|TestHtlc|TestPlasma", walks: 3, walkLen: 120, reorgs: 3, tight: true})
+	ledgerFamily(run, ledgerFamilyOpts{prop: "C01", invariants: "Conservation AtMostOnce FIFO Backed", repoPattern: "TestToken|TestSimple|TestSendBlock|TestHtlc|TestPlasma", walks: 3, walkLen: 120, reorgs: 3, tight: true, tokens: true})
 	run.Finish()
 }
